@@ -65,14 +65,14 @@ def _p(pid, level, expl, assume, extra=None):
 _p("C01", "proof",
    "PROVED at protocol level (Props/C01.v over Spec/Safety.v, theorem C01_state_machine_safety_protocol): in every execution of any network of "
    "nodes that follow the election/replication/commit rules the node model implements (unbounded nodes, terms, log lengths and steps; messages "
-   "delayed, duplicated, reordered, lost; static voter set), any two hand-outs at the same position by any nodes at any moments carry the same "
+   "delayed, duplicated, reordered, lost; a static configuration, simple or joint: a quorum is a majority of the voters and of the outgoing voters), any two hand-outs at the same position by any nodes at any moments carry the same "
    "entry, and what a node may treat as committed is never replaced or dropped (C01_committed_never_replaced). PROVED node-locally on the "
    "extracted model: what a node hands out is the consecutive run of its log after the applying cursor within commit; commit moves forward only. "
    "PARTIAL: that the node model follows the protocol rules is shown rule by rule (Props C02/C04/C05/C06 local theorems), not as one refinement "
    "theorem; membership change, snapshots/compaction and crash loss of unacknowledged suffixes are outside the protocol theorem and are EXPLORED: "
    "monitors compare every committed-entry hand-out and every commit-time prefix across all nodes and incarnations on every generated schedule.",
    ["crash model of the main stream: the persistent writes of one Ready / one MsgStorageAppend are atomic (CrashAtomic)",
-    "protocol theorem: static voter set, no snapshots, acknowledged log prefixes are durable"],
+    "protocol theorem: static configuration (simple or joint; no transitions between configurations), no snapshots, acknowledged log prefixes are durable"],
    {"technique": "Coq: protocol-level State Machine Safety (invariant with history variables, Spec/Safety.v) + node-local lemmas on the extracted "
                  "model; lockstep tie model<->code; cluster exploration with cross-node hand-out monitors for what the protocol theorem leaves out"})
 _p("C02", "proof",
@@ -97,9 +97,9 @@ _p("C04", "proof",
    "moment it becomes leader) already agrees through position i with every earlier leadership that committed position i "
    "(C04_new_leader_holds_committed), every later leadership keeps the entry (C04_leader_completeness_protocol), and no step removes it from a "
    "follower that held it (C04_followers_keep_committed). PROVED node-locally: votes only for up-to-date logs; commit only of own-term entries at "
-   "the quorum index. PARTIAL: static voter set, no snapshots in the protocol theorem; joint configurations, learners promoted unknowingly, "
+   "the quorum index. PARTIAL: static configuration (simple or joint), no snapshots in the protocol theorem; changes of configuration, learners promoted unknowingly, "
    "restarts and snapshot-covered entries are EXPLORED: at every leadership change the monitor compares the new leader's log with every entry "
-   "known committed.", ["protocol theorem: static voter set, no snapshots, acknowledged log prefixes are durable"],
+   "known committed.", ["protocol theorem: static configuration (simple or joint; no transitions between configurations), no snapshots, acknowledged log prefixes are durable"],
    {"technique": "Coq: protocol-level Leader Completeness (quorum intersection of commit and election majorities, Spec/Safety.v) + node-local "
                  "lemmas (up-to-date vote, own-term quorum commit); lockstep tie; leader-completeness monitor"})
 _p("C05", "proof",
@@ -111,7 +111,8 @@ _p("C05", "proof",
    "storage holds the promised vote / entries and that a leader counts its own entries only when they are durable.", [])
 _p("C06", "proof",
    "Proved (Props/C06.v): maybeCommit moves commit only to the joint quorum index of Match (exact by C12) and only if the entry there has the leader's "
-   "term and lies within the log; heartbeats carry min(Match, commit); commitTo never passes the last index; commit never decreases. That Match "
+   "term and lies within the log; heartbeats carry min(Match, commit); commitTo never passes the last index; commit never decreases; an accepted MsgApp "
+   "moves a follower's commit index to min(leader's commit, end of the matched prefix) and no further (C06_follower_commit_clamped). That Match "
    "reflects durable storage on the followers is cluster-level and checked by monitors (durable joint quorum at every commit advancement).", ["wf_msg"])
 _p("C07", "proof",
    "Theorems C07_incarnation / C07_exposed / C07_restart / C07_step: the hard state (term, vote, commit) moves forward only, for every sequence of "
@@ -138,14 +139,17 @@ _p("C08", "proof",
 _p("C09", "proof",
    "Proved (Props/C09.v): restore never lowers commit, returns false without touching the unstable log when index <= commit / not in the "
    "snapshot's membership / (index, term) already matches, restores only as follower; the response is a promise message (withheld until "
-   "persistence); an accepted snapshot leaves exactly its index, term and membership as the new log base "
+   "persistence); the snapshot a leader sends is the one its log can offer, the pending unstable one or the storage's latest (C09_snapshot_sent_is_the_logs); "
+   "an accepted snapshot leaves exactly its index, term and membership as the new log base "
    "(C09_restore_installs_exactly_the_snapshot). 'Every snapshot a leader sends is a committed prefix', 'no fork' and 'the log base never moves "
    "back' are monitored.", [])
 _p("C10", "proof",
    "Proved (Props/C10.v): the propose-time gate (a change survives only if pendingConfIndex <= applied, the joint/leave shape fits and the "
    "current configuration accepts it in a dry run of the Changer on the decoded payload -- the F6 repair, C10_unacceptable_change_refused --, "
    "otherwise it is replaced by an empty normal entry; surviving changes move pendingConfIndex), hup refuses while a committed change is unapplied, a new "
-   "leader's pendingConfIndex is its last index, accepted changes keep the configuration invariants (C13), joint decisions use both halves (C12). "
+   "leader's pendingConfIndex is its last index, accepted changes keep the configuration invariants (C13), joint decisions use both halves (C12); at protocol level a quorum of a joint "
+   "configuration is a majority of both voter sets and with it State Machine Safety holds in a joint configuration as in a simple one "
+   "(C10_joint_quorum_is_both_majorities, C10_state_machine_safety_in_joint_configuration, C10_joint_nonvacuous). "
    "'All nodes derive the same configurations' is monitored (configuration after index i compared across nodes).",
    ["DisableConfChangeValidation = false for the gate lemma", "Env.apply_before_snap_step (finding F9) is enforced by the generator"],
    {"pure": {"confchange": {"tags": ["CD"]}},
@@ -159,7 +163,7 @@ _p("C11", "proof",
    "answered the heartbeat sent after the request, every entry committed by any leadership before the request lies at or below a position the "
    "serving leadership had committed by then. Linearizability across the cluster is also monitored on every schedule with ReadOnlySafe (read "
    "index >= every commit reported before the request); lease-based reads are outside the property.",
-   ["protocol theorem: static voter set", "F3 and F12 are repaired (known_findings.txt)"])
+   ["protocol theorem: static configuration (simple or joint)", "F3 and F12 are repaired (known_findings.txt)"])
 _p("C13", "proof",
    "Proved (Props/C13.v) for every tracker state and change list: an accepted Simple / EnterJoint / LeaveJoint yields a configuration satisfying the "
    "invariants of checkInvariants (as a proposition: members have progress, staged learners are outgoing voters and not learners, learners are "
@@ -175,7 +179,11 @@ _p("C13", "proof",
 _p("C14", "exploration",
    "No-panic under contract-respecting usage is EXPLORED: every call on every generated schedule is made under recover(); any panic is a violation "
    "unless classified as a known finding. Every panic site of the modelled code is an explicit Panic result of the model and panic/no-panic is "
-   "compared in lockstep. Proved locally (Props/C14.v): the nested Step never reaches the model's recursion leaf; Inflights.Add full; writes keep storage well formed.",
+   "compared in lockstep. Proved for every state and every input (Props/C14.v, Proofs/PanicProofs.v): no function of the node model, node_step included, "
+   "returns a panic of the locally guarded sites: Inflights.Add on a full window, SentEntries in StateSnapshot, the state transitions leader->candidate, "
+   "leader->pre-candidate and follower->leader, unknown Progress states, the recursion leaf of the nested Step (C14_step_unreachable_assertions, "
+   "C14_tick_unreachable_assertions, C14_node_unreachable_assertions, C14_flow_assertions_unreachable). The other assertions depend on invariants that involve "
+   "the application and the peers and are explored. Also proved: the nested Step is exact; writes keep storage well formed.",
    ["Env.cc_keeps_voter, Env.snapshot_sound, Env.snap_before_entries, Env.apply_before_snap_step (DESIGN.md 3.3) are enforced by the generator"])
 _p("C15", "exploration",
    "Convergence after faults stop is EXPLORED, not proved (a liveness property of the whole group; the Coq development has no fairness/time "
@@ -188,7 +196,7 @@ _p("C15", "exploration",
    "no pending snapshot; then three proposals at the leader must be applied by every member within 12 more election timeouts. The README exception "
    "(a survivor whose two-voter configuration half still contains a removed or demoted node) is recognised and skipped. This check found F7 (the "
    "automatic leave of a joint configuration was never retried after an aborted leadership transfer), repaired in /repo. Proved (Props/C15.v): "
-   "heartbeat responses un-pause a follower; a pending transfer is aborted when the election timeout elapses.",
+   "heartbeat responses un-pause a follower; a pending transfer is aborted when the election timeout elapses. Supporting theorems (Props/C15.v): a heartbeat response unpauses a probing follower; a pending transfer is given up at the election timeout and the automatic leave of a joint configuration is then retried; the election timer of a non-leader counts and, at the randomized timeout, a node that may campaign becomes pre-candidate or candidate.",
    ["the fault-free suffix assumes a cooperative application: the leader's storage offers a snapshot covering its applied index and membership when one must be sent"])
 _p("C16", "proof",
    "Proved (Props/C16.v): limitSize / raftLog.slice / entries return within the budget or a single entry, for every log and storage; every MsgApp "
